@@ -257,8 +257,13 @@ impl CanonicalRequest {
                         pq.push_str(&qs);
                     }
 
-                    parts.uri =
-                        Uri::builder().path_and_query(pq).build().expect("failed to rebuild URI with new query string");
+                    // The merged URI can exceed what the http crate can represent (64 KiB); refuse instead of panicking.
+                    parts.uri = Uri::builder().path_and_query(pq).build().map_err(|e| {
+                        SignatureError::InvalidBodyEncoding(format!(
+                            "application/x-www-form-urlencoded body cannot be converted to query parameters: {}",
+                            e
+                        ))
+                    })?;
                     body = Bytes::from("");
                 }
             }
